@@ -42,14 +42,16 @@ func validateContentType(allowed []string, actual string) error {
 	if err != nil {
 		return errors.InvalidContentType(actual, allowed)
 	}
-	if swag.ContainsStringsCI(allowed, mt) {
+	// parameters of a consumes entry (e.g. "; charset=utf-8") play no part in the admission
+	types := normalizeOffers(allowed)
+	if swag.ContainsStringsCI(types, mt) {
 		return nil
 	}
-	if swag.ContainsStringsCI(allowed, "*/*") {
+	if swag.ContainsStringsCI(types, "*/*") {
 		return nil
 	}
 	parts := strings.Split(actual, "/")
-	if len(parts) == 2 && swag.ContainsStringsCI(allowed, parts[0]+"/*") {
+	if len(parts) == 2 && swag.ContainsStringsCI(types, parts[0]+"/*") {
 		return nil
 	}
 	return errors.InvalidContentType(actual, allowed)
